@@ -30,7 +30,7 @@ const IDENTS: [&str; 3] = ["Kk", "Sis", "KK"];
 
 pub fn programs(tier: Tier) -> ProgramSet {
     let pool: Vec<&str> = match tier {
-        Tier::Quick => vec!["Kk", "ss", "é", "XY", "x1", "Éa"],
+        Tier::Quick => vec!["Kk", "ss", "é", "XY", "x1", "Éa", ""],
         Tier::Thorough => vec!["Kk", "ss", "i", "é", "xé", "XY", "x1", "İ", "", "ſ", "Éa", "ÉCOLE"],
     };
     let k = match tier {
@@ -80,6 +80,14 @@ pub fn programs(tier: Tier) -> ProgramSet {
                     devs.push(dev(format!("v{}.serialize=[\"xB\", \"XB\"]", i), &[&format!("sp{}", i)], move |s| {
                         s.variants[i].serialize.push("xB".into());
                         s.variants[i].serialize.push("XB".into());
+                        true
+                    }));
+                }
+                // default names that a letter-case-only style still changes: `_` and a non-ASCII cased letter in the identifier
+                for (st, id) in [("camelCase", "NOT_Found"), ("PascalCase", "not_found"), ("lowercase", "ÄrX"), ("UPPERCASE", "ärX")] {
+                    devs.push(dev(format!("serialize_all={:?} + v0.ident={}", st, id), &["style", "id0"], move |s| {
+                        s.serialize_all = Some(st.to_string());
+                        s.variants[0].ident = id.to_string();
                         true
                     }));
                 }
